@@ -1258,6 +1258,7 @@ func (e *env) sharedCase(k, rounds int) {
 				out = fmt.Sprint("error: ", classify(err))
 				return
 			}
+			time.Sleep(30 * time.Microsecond) // the handler does other things between the translation and the serialisation of its result
 			b, _ := json.Marshal(res.OpenAIRequest)
 			out = string(b) + "|" + res.ModelName + "|" + res.TargetPath
 		}()
@@ -1268,6 +1269,7 @@ func (e *env) sharedCase(k, rounds int) {
 	for i := range bodies {
 		q := genReq(e.r)
 		q.Model = fmt.Sprintf("client-%02d-model", i)
+		q.Stop = []string{fmt.Sprintf("</c%02d>", i), fmt.Sprintf("stop-%02d", i), "Human:"}[:1+i%3]
 		bodies[i] = q.render(e.r)
 		ref[i] = one(bodies[i])
 	}
@@ -1477,7 +1479,7 @@ func main() {
 		e.malformed("two-documents", g+g, false)
 	}
 
-	e.sharedCase(24, map[bool]int{false: 40, true: 400}[tier == "thorough"])
+	e.sharedCase(24, map[bool]int{false: 250, true: 2500}[tier == "thorough"])
 	e.c.Close(map[string]any{"exhaustive": false,
 		"exhaustive_note": "the request grammar is infinite; every tool_choice form (string / object / object+name / other / null / absent x keyword) is enumerated with and without tools, every malformed kind is run at least once, everything else is sampled"})
 }
